@@ -68,6 +68,8 @@ def cases(draw):
     kwonly_names = [p[0] for p in params if p[1] == "kwonly"]
     if var and kwonly_names and draw(st.booleans()):
         config = sorted(set(config) | {kwonly_names[0]})
+    if var and draw(st.integers(0, 2)) == 0:
+        config = sorted(set(config) | {"rest"})          # the variadic parameter as a config argument
     # call assignment
     call = {"pos": [], "kw": {}, "extra_pos": [], "extra_kw": {}}
     by_kw_allowed = True
@@ -94,7 +96,7 @@ def cases(draw):
             by_kw_allowed = False
         elif kind == "var":
             if by_kw_allowed:
-                call["extra_pos"] = draw(st.lists(val, max_size=4))
+                call["extra_pos"] = draw(st.lists(val, min_size=1 if "rest" in config else 0, max_size=4))
         elif kind == "kwonly":
             if default is None or draw(st.booleans()):
                 call["kw"][name] = draw(val)
@@ -230,6 +232,14 @@ def variants(case):
         k2 = dict(kw0)
         k2["info"] = JobInfo(execution_id="e", job_id="j", eval_hash="x", args_hash="y")
         out.append(("same:jobinfo", True, pos0, k2, 0))
+    # ... and passed POSITIONALLY (a task forwarding its own job_info), when the placeholder
+    # parameter is the next free positional slot
+    poscap = [p for p in params if p[1] in ("ponly", "pos", "def", "info")]
+    for idx_, (name, kind, _d) in enumerate(poscap):
+        if kind == "info" and idx_ == len(pos0) and not call["extra_pos"] and name not in kw0 \
+                and all(p[1] != "info" for p in poscap[:idx_]):
+            out.append(("same:jobinfo-positional", True, list(pos0) + [JobInfo(execution_id="e2", job_id="j2", eval_hash="x", args_hash="y")], kw0, 0))
+            out.append(("same:jobinfo-positional-placeholder", True, list(pos0) + [JobInfo()], kw0, 0))
     # task hash
     out.append(("change:task", False, pos0, kw0, 1))
     return out
